@@ -2,8 +2,9 @@
 # usage: seed_keep.py <ID> <mk> <caught_by comma list or NONE> <needs text>
 import sys,os,shutil,json,glob,subprocess
 pid,mk,caught,needs=sys.argv[1:5]
-src=f'/tmp/seed/{pid}/out/{mk}'
-dst=f'/verif/seeded/{pid}-{mk}'
+base=os.environ.get('SEEDBASE','/tmp/seed')
+src=f'{base}/{pid}/out/{mk}'
+dst=f'/verif/seeded/{pid}-'+('r2' if 'seed2' in base else '')+mk
 os.makedirs(dst,exist_ok=True)
 for f in glob.glob(src+'/*'):
     if os.path.isfile(f) and not f.endswith('.log'): shutil.copy(f,dst)
